@@ -247,6 +247,40 @@ def r5_unsubscribe_key(ctx):
         R.check(any(l.kind == "agg" and l.detail.get("adt", "").endswith("SubscriptionKey") for l in lv), "C04.R5", "unsubscribe:key-built", "the key is (conn_id, sub_id)", "the removal key is %s" % [flow.leaf_str(l) for l in lv], where(r))
 
 
+def r5b_unsubscribe_key_not_rebuilt(ctx):
+    from .common import server_unsubscribe_key_is_the_decoded_id
+
+    server_unsubscribe_key_is_the_decoded_id(ctx, "C04.R5")
+
+
+def r12_unsubscribe_ends_the_subscription_before_it_answers(ctx):
+    """a successful unsubscribe call closes the subscription *then and there*: the table entry it removes (the sender
+    whose drop is what makes the sink report closed) dies inside the handler, before the `true` is even built. Nothing is
+    spawned from the handler and the removed entry is not captured by a future / closure or handed to another function -
+    an entry that is dropped later (after the reply was flushed, after a timer) leaves a window in which the call has
+    succeeded but is_closed() is false and sends are still accepted and delivered"""
+    F, R = ctx.F, ctx.R
+    cb = F.one(r"^jsonrpsee_core::server::rpc_module::RpcModule::<Context>::verify_and_register_unsubscribe::\{closure#0\}$")
+    R.fn(cb)
+    bodies = F.nested(cb)
+    sp = [c for x in bodies for c in x.calls_to(r"^tokio::(task::)?(spawn|spawn_local|spawn_blocking)$|Handle::spawn$|JoinSet::<.*>::spawn$")]
+    R.check(not sp, "C04.R12", "unsubscribe:spawns-nothing", "the unsubscribe handler spawns nothing", "the unsubscribe handler spawns a task (%s): whatever ends the subscription there happens after the call was answered" % sorted({short(c.name()) for c in sp}), where(sp[0]) if sp else None)
+    n = 0
+    for r in cb.calls_to(r"HashMap::<.*>::(remove|remove_entry)$"):
+        n += 1
+        holders = follow_value(cb, r.dest["l"])
+        kept = []
+        for bi, blk in enumerate(cb.blocks):
+            if bi not in cb.reachable or blk.get("cleanup"):
+                continue
+            for st in blk["st"]:
+                if st["s"] == "assign" and st["rv"]["k"] == "agg" and st["rv"].get("ak") in ("closure", "coroutine", "coroutine_closure"):
+                    if any(op_place(o) is not None and op_place(o)["l"] in holders for o in st["rv"]["ops"]):
+                        kept.append("%s:%d" % (cb.file, st["sp"][0]))
+        R.check(not kept, "C04.R12", "unsubscribe:removed-entry-dies-here", "the removed entry is dropped inside the handler", "the entry removed by the unsubscribe handler is captured by a future / closure (at %s) instead of being dropped: the subscription is closed only when that runs, after the call has already answered `true`" % kept, where(r))
+    R.floor("C04.R12", n, 1, "removals in the unsubscribe handler")
+
+
 def r6_single_writer(ctx):
     F, R = ctx.F, ctx.R
     # the per-connection receiver created next to the MethodSink is moved into exactly one place: send_task (via BackgroundTaskParams)
@@ -424,7 +458,7 @@ def rjson_notifications_are_serialised_by_serde(ctx):
     c15.r6_no_handmade_json(ctx)
 
 
-LIB_RULES = [rjson_notifications_are_serialised_by_serde, rstop_server_stop_is_reported_after_the_drain, r1_typestate, r2_closed_check_first, r3_identity, r4_close_gating, r5_unsubscribe_key, r6_single_writer, r7_envelope_is_fresh, r8_sibling_registrars, r9_low_level_connection_is_driven_by_its_future, r10_lossy_sends_are_the_api_only, rflag_success_flag_matches_json, r11_returned_messages_are_complete]
+LIB_RULES = [rjson_notifications_are_serialised_by_serde, rstop_server_stop_is_reported_after_the_drain, r1_typestate, r2_closed_check_first, r3_identity, r4_close_gating, r5_unsubscribe_key, r5b_unsubscribe_key_not_rebuilt, r12_unsubscribe_ends_the_subscription_before_it_answers, r6_single_writer, r7_envelope_is_fresh, r8_sibling_registrars, r9_low_level_connection_is_driven_by_its_future, r10_lossy_sends_are_the_api_only, rflag_success_flag_matches_json, r11_returned_messages_are_complete]
 CONFIGS_QUICK = ["libs-all", "corpus"]
 CONFIGS_THOROUGH = ["libs-all", "facade-full", "corpus"]
 
